@@ -160,13 +160,19 @@ def run(pid, tier, seed, replay, t0):
             tb = traceback.extract_tb(e.__traceback__)
             src = str(core.REPO / "src")
             frames = [f for f in tb if f.filename.startswith(src)]
-            if not frames:
-                raise
-            last = frames[-1]
             res = core.Result(key=core.case_key(case))
-            res.features.append("implementation-raised-unexpectedly")
-            res.disagree("the implementation raised where the model returns normally",
-                         f"{type(e).__name__}: {str(e)[:120]} at {os.path.relpath(last.filename, src)}:{last.lineno} in {last.name}", "normal return")
+            if frames:
+                last = frames[-1]
+                res.features.append("implementation-raised-unexpectedly")
+                res.disagree("the implementation raised where the model returns normally",
+                             f"{type(e).__name__}: {str(e)[:120]} at {os.path.relpath(last.filename, src)}:{last.lineno} in {last.name}", "normal return")
+            else:
+                # the comparison code itself could not digest what the implementation returned (wrong shapes, missing entries …):
+                # the correspondence is not established for this input
+                last = tb[-1]
+                res.features.append("implementation-output-not-interpretable")
+                res.disagree("the implementation's output could not be compared with the model",
+                             f"{type(e).__name__}: {str(e)[:120]} at {os.path.basename(last.filename)}:{last.lineno}", "comparable output")
             return res
 
     if replay:
